@@ -53,6 +53,8 @@ def build_archive(entries, out_dir, dest_name):
         name = subst(name, out_dir, dest_name)
         if kind == "dir":
             files.append({"name": name, "es": True, "attr": A_DIR, "mtime": 132000000000000000})
+        elif kind == "emptyfile":
+            files.append({"name": name, "es": True, "ef": True, "attr": A_FILE, "mtime": 132000000000000000})
         elif kind == "link":
             files.append({"name": name, "data": subst(text, out_dir, dest_name).encode("utf-8"), "attr": A_LINK,
                           "mtime": 132000000000000000})
@@ -82,13 +84,13 @@ class C03(Check):
     rule = ("archives of 1..5 entries built by the reference writer: names over {a,b,..,.,'',absolute outside prefix, destination's own "
             "name}, kinds file/dir/symlink with link texts {., .., ../.., a, a/.., absolute outside}; enumerated: all 1-entry archives "
             "over the reduced (12 names x 8 kinds) and dotted (names <= 3 components over {a,..,.,'',ABS}) alphabets x 12 "
-            "configurations, all 2-entry archives over the reduced alphabet x 3 destination forms, the link-through-link 3-entry "
+            "configurations, all 2-entry archives over the reduced alphabet (x 3 destination forms in the thorough tier, rotating in quick), the re-pointing slices (link inside when created, re-pointed by a later entry, then used: 27k 3-entry and 15k 4-entry sequences), the link-through-link 3-entry "
             "slice; thorough: all 3-entry archives; Hypothesis beyond. x destination absolute/relative/None x opened by path/stream "
             "x destination empty/pre-populated x extractall/extract(targets). Non-trivial: archive has a symlink entry or a '..'/absolute "
             "name; distinct by (entries, destination form, open mode, pre-populated, api).")
     assumptions = ["CPython audit events fire for open/os.mkdir/os.symlink/os.chmod/os.utime/os.remove/os.rename/os.truncate/os.rmdir/os.link",
                    "os.path.realpath at the moment of the call decides the affected location"]
-    budget_s = {"quick": 75, "thorough": 1500}
+    budget_s = {"quick": 110, "thorough": 1800}
     sandbox_timeout = 30
 
     def setup(self, env):
@@ -131,11 +133,13 @@ class C03(Check):
             for e2 in RED_ENTRIES:
                 j += 1
                 for di, d in enumerate(DESTS):
+                    if env.quick and di != j % 3:
+                        continue  # quick: one destination form per pair (rotating); thorough: all three
                     i += 1
                     if env.mine(i):
                         yield {"entries": [e1, e2], "dest": d, "open": OPENS[(j + di) % 2], "pre": bool((j // 2 + di) % 2), "api": "extractall"}
         # link-through-link slice: a link, an entry whose name passes through it, then anything
-        third = RED_ENTRIES + [[n, k, t] for n in ("b", "b/a", "b/b", "a/b/a", "b/..") for (k, t) in KINDS]
+        third = [e for e in RED_ENTRIES if OUT not in e[0] and OUT not in e[2]] + [[n, k, t] for n in ("b", "b/a", "b/b", "a/b/a", "b/..") for (k, t) in KINDS]
         for t1 in LINK_TEXTS:
             for (k2, t2) in KINDS:
                 for n2 in ("a/a", "a/..", "a/b"):
@@ -144,6 +148,33 @@ class C03(Check):
                         if env.mine(i):
                             yield {"entries": [["a", "link", t1], [n2, k2, t2], e3], "dest": DESTS[i % 3], "open": OPENS[(i // 3) % 2],
                                    "pre": False, "api": "extractall"}
+        # links that are inside when created and are re-pointed by a LATER entry, then used (3 entries), and the same with a
+        # directory / second link in between (4 entries, first entry fixed to the directory 'a')
+        rp3 = [[n, k, t] for n in ("l", "x", "./l", "l/f", "l/sub/f") for (k, t) in (("link", "x/.."), ("link", "x/../f2"), ("link", "."), ("file", ""),
+                                                                                    ("emptyfile", ""))]
+        for e1 in rp3:
+            for e2 in rp3:
+                for e3 in rp3:
+                    i += 1
+                    if env.mine(i):
+                        yield {"entries": [e1, e2, e3], "dest": DESTS[i % 3], "open": OPENS[(i // 3) % 2], "pre": False, "api": "extractall"}
+        rp4 = [[n, k, t] for n in ("a", "m", "l", "l/f", "./m") for (k, t) in (("dir", ""), ("link", "a"), ("link", "m/.."), ("link", "."), ("file", ""))]
+        for e2 in rp4:
+            for e3 in rp4:
+                for e4 in rp4:
+                    for e5 in ([None] if env.quick else [None] + rp4):
+                        i += 1
+                        if env.mine(i):
+                            ents = [["a", "dir", ""], e2, e3, e4] + ([e5] if e5 else [])
+                            yield {"entries": ents, "dest": DESTS[i % 3], "open": OPENS[(i // 3) % 2], "pre": False, "api": "extractall"}
+        # a regular file later replaced by a link that is reached under a different path string (through a directory link)
+        rp5 = [[n, k, t] for n in ("d", "d/f", "x") for (k, t) in (("link", "a"), ("link", "../x/.."), ("link", "."), ("link", "x/.."), ("file", ""), ("dir", ""))]
+        for e2 in rp5:
+            for e3 in rp5:
+                for e4 in rp5:
+                    i += 1
+                    if env.mine(i):
+                        yield {"entries": [["a/f", "file", ""], e2, e3, e4], "dest": DESTS[i % 3], "open": OPENS[(i // 3) % 2], "pre": False, "api": "extractall"}
         if not env.quick:
             for e1 in RED_ENTRIES:
                 for e2 in RED_ENTRIES:
@@ -162,6 +193,7 @@ class C03(Check):
         entry = st.one_of(
             name.map(lambda n: [n, "file", ""]),
             name.map(lambda n: [n, "dir", ""]),
+            name.map(lambda n: [n, "emptyfile", ""]),
             st.tuples(name, text).map(lambda t: [t[0], "link", t[1]]),
             st.tuples(name, text).map(lambda t: [t[0], "link", t[1]]),
         )
@@ -170,7 +202,7 @@ class C03(Check):
                                       "api": st.sampled_from(["extractall", "extractall", "extract"])})
 
     def examples(self, env):
-        return env.n(500, 20000)
+        return env.n(300, 20000)
 
     def execute(self, case, env):
         out = Outcome()
@@ -187,7 +219,8 @@ class C03(Check):
         os.makedirs(out_dir)
         os.makedirs(os.path.join(J, "sib"))
         for p, c in ((os.path.join(J, "outside.txt"), b"outside"), (os.path.join(J, "sib", "keep.txt"), b"keep"),
-                     (os.path.join(out_dir, "x"), b"outx"), (os.path.join(root, "above.txt"), b"above")):
+                     (os.path.join(out_dir, "x"), b"outx"), (os.path.join(root, "above.txt"), b"above"), (os.path.join(J, "f"), b"outside-f"),
+                     (os.path.join(J, "f2"), b"outside-f2")):
             with open(p, "wb") as f:
                 f.write(c)
         if case["pre"]:
